@@ -112,25 +112,46 @@ func (f *fix) oracleC05(i int, pre, post map[common.Address]funds, preInviter, p
 func (f *fix) oracleC04(i int, pre, post map[common.Address]funds) []Finding {
 	tx := f.txs[i]
 	var res []Finding
-	if tx.Type == types.DeployContractTx || tx.Type == types.CallContractTx || tx.Type == types.TerminateContractTx {
-		return nil // the harness's VM stand-in is not bound by the VM's obligations (VmOk); contracts are C15's
-	}
+	contract := tx.Type == types.DeployContractTx || tx.Type == types.CallContractTx || tx.Type == types.TerminateContractTx
+	signer, _ := types.Sender(tx)
 	for _, p := range pre { // the statement is about states that satisfy the invariant before the transaction
 		if p.bal.Sign() < 0 || p.stake.Sign() < 0 || p.locked.Sign() < 0 || p.repl.Sign() < 0 || p.cstake.Sign() < 0 || p.locked.Cmp(p.stake) > 0 {
 			return nil
 		}
 	}
 	for _, a := range sortedAddrs(post) {
+		if contract && a != signer {
+			continue // whom the VM stand-in debits is not the code's doing (VmOk is C15's); the signer is charged by the wrapper
+		}
 		q := post[a]
-		if q.bal.Sign() < 0 || q.stake.Sign() < 0 || q.locked.Sign() < 0 || q.repl.Sign() < 0 || q.cstake.Sign() < 0 || q.locked.Cmp(q.stake) > 0 {
-			res = append(res, Finding{Sig: "C04:negative:" + TypeName(tx.Type),
-				Detail: fmt.Sprintf("after %s: id %d balance %s stake %s locked %s replenished %s contract stake %s", TypeName(tx.Type),
+		comp := ""
+		switch {
+		case q.bal.Sign() < 0:
+			comp = "balance"
+		case q.stake.Sign() < 0:
+			comp = "stake"
+		case q.locked.Sign() < 0 || q.locked.Cmp(q.stake) > 0:
+			comp = "locked"
+		case q.repl.Sign() < 0:
+			comp = "replenished"
+		case q.cstake.Sign() < 0:
+			comp = "contract-stake"
+		}
+		if comp != "" {
+			res = append(res, Finding{Sig: "C04:negative-component:" + comp + ":tx",
+				Detail: fmt.Sprintf("after a validated %s: id %d balance %s stake %s locked %s replenished %s contract stake %s", TypeName(tx.Type),
 					f.idOf(a), q.bal, q.stake, q.locked, q.repl, q.cstake)})
 		}
 	}
-	if totalOf(post).Cmp(totalOf(pre)) > 0 {
-		res = append(res, Finding{Sig: "C04:total-grew:" + TypeName(tx.Type),
-			Detail: fmt.Sprintf("total %s -> %s", totalOf(pre), totalOf(post))})
+	vmSum := new(big.Int)
+	if contract && f.cs.Txs[i].VM != nil {
+		for _, d := range f.cs.Txs[i].VM.Deltas {
+			vmSum.Add(vmSum, d.D)
+		}
+	}
+	if vmSum.Sign() <= 0 && totalOf(post).Cmp(totalOf(pre)) > 0 {
+		res = append(res, Finding{Sig: "C04:transactions-increased-total:tx",
+			Detail: fmt.Sprintf("validated %s: total %s -> %s", TypeName(tx.Type), totalOf(pre), totalOf(post))})
 	}
 	return res
 }
